@@ -147,7 +147,7 @@ def Rollback (cfg : Config) (x : Ctx) (r : Ctx × Option Json) : Prop :=
   r.1.st = x.st ∧ ∃ ns, Emits x r.1 ns ∧
     ∀ c pg f, Alive x.st c pg f →
       (pick c f.fid ns = [] ∨
-       ∃ path v, pick c f.fid ns =
+       ∃ path v, (∀ e' ∈ allElems x.st, e'.path ≠ path) ∧ pick c f.fid ns =
          [{ fid := f.fid, path := path, event := .add, value := v },
           { fid := f.fid, path := path, event := .remove, value := v }])
 
@@ -155,7 +155,8 @@ theorem Rollback.same (cfg : Config) (x : Ctx) (resp : Option Json) : Rollback c
   ⟨rfl, [], Emits.refl x, fun _ _ _ _ => Or.inl rfl⟩
 
 theorem addCore_rollback {cfg : Config} {x : Ctx} (inv : Inv cfg x.st) (p : Peer)
-    (req : Json) (path : Bytes) (e : Element) (hkeys : keys e.fetchers = []) (hfull : x.indexFull = true) :
+    (req : Json) (path : Bytes) (e : Element) (hkeys : keys e.fetchers = [])
+    (hfresh : lookupIndex x.st.index e.path = none) (hfull : x.indexFull = true) :
     Rollback cfg x (addCore cfg x p req path e) := by
   obtain ⟨h1, h2, h3, h4⟩ := findFetchersForElement_spec cfg x e
   have hfull1 : (findFetchersForElement cfg x e).1.indexFull = true := by
@@ -199,7 +200,7 @@ theorem addCore_rollback {cfg : Config} {x : Ctx} (inv : Inv cfg x.st) (p : Peer
   by_cases hv : visible cfg p1.fetchGroups f.rule e = true
   · right
     rw [if_pos hv, if_pos ((hnew.char p1 hp1 f hf).2 ((hvis _ _).trans hv))]
-    refine ⟨e.path, e.value, ?_⟩
+    refine ⟨e.path, e.value, no_elem_of_fresh inv hfresh, ?_⟩
     have hp' : e1.path = e.path := by rw [h2]
     have hv' : e1.value = e.value := by rw [h2]
     rw [hp', hv']
@@ -217,9 +218,13 @@ theorem addBody_rollback {cfg : Config} {x : Ctx} (inv : Inv cfg x.st) (p : Peer
   · exact Rollback.same ..
   · split
     · exact Rollback.same ..
-    · split
+    · next hidx =>
+      split
       · exact Rollback.same ..
-      · exact addCore_rollback inv p req path _ (by simp) hfull
+      · refine addCore_rollback inv p req path _ (by simp) ?_ hfull
+        cases h : lookupIndex x.st.index path with
+        | none => rfl
+        | some o => simp [h] at hidx
 
 theorem addElement_rollback {cfg : Config} {x : Ctx} (inv : Inv cfg x.st) (p : Peer) (req : Json)
     (hfull : x.indexFull = true) : Rollback cfg x (addElement cfg x p req) := by
